@@ -124,6 +124,9 @@ def make_real(d):
     p = os.path.join(d, "legacy.pt")
     torch.save(m, p, _use_new_zipfile_serialization=False)
     files["torch-legacy"] = (p, ["PyTorch v0.1.10"])
+    p = os.path.join(d, "legacy-p1.pt")
+    torch.save(m, p, _use_new_zipfile_serialization=False, pickle_protocol=1)
+    files["torch-legacy-p1"] = (p, ["PyTorch v0.1.10"])
     p = os.path.join(d, "script.pt")
     torch.jit.save(torch.jit.script(m), p)
     files["torchscript"] = (p, ["TorchScript v1.4", "TorchScript v1.3", "PyTorch v1.3"])
@@ -225,7 +228,8 @@ def _pair(item):
     import fickling.polyglot as pg
 
     warnings.simplefilter("ignore")
-    a, b, k, wd = item
+    a, b, k, wd = item[:4]
+    subdir_out = len(item) > 4 and item[4]
     out = e1.Out()
     st = out.stats
     d = os.path.join(wd, f"pair-{os.getpid()}")
@@ -238,7 +242,10 @@ def _pair(item):
     cwd = os.getcwd()
     os.chdir(os.path.join(d, "cwd"))
     outname = "poly.out"
-    rp = {"engine": "E3-fault", "first": a, "second": b, "fault_at": k}
+    if subdir_out:
+        os.makedirs(os.path.join(d, "cwd", "outdir"))
+        outname = os.path.join("outdir", "poly.out")
+    rp = {"engine": "E3-fault", "first": a, "second": b, "fault_at": k, "output_in_subdirectory": bool(subdir_out)}
     try:
         with Faults(k) as fl:
             try:
@@ -247,7 +254,8 @@ def _pair(item):
             except BaseException as e:  # noqa: BLE001
                 res = e
                 how = "raised"
-        after = sorted(os.listdir("."))
+        after = sorted(os.path.relpath(os.path.join(r, f), ".") for r, ds, fs in os.walk(".") for f in fs + [x + "/" for x in ds])
+        after = [x for x in after if x.rstrip("/") != "outdir"]
     finally:
         os.chdir(cwd)
     st.inc("polyglot_runs")
@@ -324,7 +332,7 @@ def _real(item):
     return out
 
 
-REAL = ("torch-zip", "torch-legacy", "torchscript", "torch-zip-state", "legacy-tar", "mar", "plain-zip", "unidentifiable", "plain-pickle")
+REAL = ("torch-zip", "torch-legacy", "torch-legacy-p1", "torchscript", "torch-zip-state", "legacy-tar", "mar", "plain-zip", "unidentifiable", "plain-pickle")
 
 
 def check(tier):
@@ -339,6 +347,8 @@ def check(tier):
             keep = ("torch-zip", "torchscript", "torch-legacy", "legacy-tar", "mar", "unidentifiable", "plain-pickle")
             pairs = [p for p in pairs if p[0] in keep and p[1] in keep]
         base = e3.pmap(_pair, [(a, b, None, wd) for a, b in pairs], rep, chunksize=2)
+        # the same pairs with the output placed in a sub-directory (temporary files must not be left next to it either)
+        e3.pmap(_pair, [(a, b, None, wd, True) for a, b in pairs], rep, chunksize=2)
         faults = []
         for (a, b), n in sorted(base.table.items()):
             for k in range(1, n + 1):
